@@ -98,17 +98,13 @@ def split_sel(roles):
 
 
 def confirm_ops(rng, tree, old, target, reorg, fwd, drain_p=0.0):
-    """Confirm delivery.  reorg in {unconf_asc, unconf_desc, best_fork, best_walk, unconf_best};
+    """Confirm delivery.  reorg in {unconf_asc, unconf_desc, best_fork, unconf_best};
     fwd in {txfirst, bestfirst, skip_txfirst, skip_bestfirst, dup, redundant, split, mix}."""
     l = tree.lca(old, target)
     ops = []
     if l != old:
-        back = tree.path(l, old)[::-1]
         if reorg in ("unconf_asc", "unconf_desc") and target != l:
             ops.append({"op": "unconf", "ord": reorg[7:]})
-        elif reorg == "best_walk":
-            for b in back:
-                ops.append({"op": "best", "b": tree.parent[b]})
         elif reorg == "unconf_best":
             ops.append({"op": "unconf", "ord": rng.choice(["asc", "desc"])})
             ops.append({"op": "best", "b": l})
@@ -195,7 +191,7 @@ def confirm_ops(rng, tree, old, target, reorg, fwd, drain_p=0.0):
     return ops
 
 
-REORG_STYLES = ["unconf_asc", "unconf_desc", "best_fork", "best_walk", "unconf_best"]
+REORG_STYLES = ["unconf_asc", "unconf_desc", "best_fork", "unconf_best"]
 FWD_STYLES = ["txfirst", "bestfirst", "skip_txfirst", "skip_bestfirst", "dup", "redundant", "split", "mix"]
 
 
@@ -232,3 +228,529 @@ def canonical_schedule(tree, targets, reloads):
 def mk_script(scen, tree, targets, sched, kind, hist):
     return {"scen": scen, "kind": kind, "hist": hist, "parent": tree.parent[1:], "txs": tree.txs[1:],
             "targets": list(targets), "order": sched["order"], "trans": sched["trans"]}
+
+
+# ----------------------------------------------------------------------------- histories
+
+def tree_valid(tree, meta):
+    """Every chain of the tree is a valid block chain for the scenario's transactions."""
+    avail = {r + 1 for r, ok in enumerate(meta["roles"]) if ok}
+    for b in range(1, len(tree.parent)):
+        ch = tree.chain(b)
+        seen = {}
+        for a in ch:
+            for r in tree.txs[a]:
+                if r in seen or r not in avail:
+                    return False
+                seen[r] = a
+        for r in tree.txs[b]:
+            if r != 1 and 1 not in seen:
+                return False
+            if tree.height[b] < meta["minh"][r - 1]:
+                return False
+        if 2 in seen and 4 in seen:
+            return False
+    return True
+
+
+def random_tree(rng, meta, ard, nbmax=12):
+    la = rng.randint(2, 8)
+    parent = list(range(la))
+    height = [0] + [k + 1 for k in range(la)]
+    tips = [la]
+    for _ in range(rng.choice([0, 1, 1, 1, 2])):
+        nb = len(parent)
+        if nb >= nbmax:
+            break
+        tip = rng.choice(tips)
+        d = rng.randint(1, min(ard + 1, height[tip]))
+        f = tip
+        for _ in range(d):
+            f = parent[f - 1] if f > 0 else 0
+        lb = rng.randint(1, min(nbmax - nb, d + 3))
+        prev = f
+        for _ in range(lb):
+            parent.append(prev)
+            height.append(height[prev] + 1)
+            prev = len(parent)
+        tips.append(prev)
+    avail = [r + 1 for r, ok in enumerate(meta["roles"]) if ok]
+    txs = [[] for _ in parent]
+    tree = Tree(parent, txs)
+    p = rng.choice([0.15, 0.3, 0.5])
+    for b in range(1, len(parent) + 1):
+        for r in avail:
+            if rng.random() < (p * 2 if r == 1 else p):
+                tree.txs[b] = sorted(tree.txs[b] + [r])
+                if not tree_valid(tree, meta):
+                    tree.txs[b] = [x for x in tree.txs[b] if x != r]
+    return tree, tips
+
+
+def random_targets(rng, tree, tips, ard):
+    n = rng.randint(2, 7)
+    cur, out = 0, []
+    nb = len(tree.parent) - 1
+    for _ in range(n):
+        desc = [b for b in range(1, nb + 1) if b != cur and cur in tree.chain(b)]
+        others = [b for b in range(1, nb + 1) if cur not in tree.chain(b) and b not in tree.chain(cur)
+                  and tree.height[cur] - tree.height[tree.lca(cur, b)] <= ard + 1]
+        anc = [b for b in tree.chain(cur)[:-1] if tree.height[cur] - tree.height[b] <= ard + 1]
+        x = rng.random()
+        if others and x < 0.35:
+            nxt = rng.choice(others)
+        elif anc and x < 0.45:
+            nxt = rng.choice(anc)
+        elif desc:
+            near = [b for b in desc if tree.height[b] - tree.height[cur] <= 2]
+            nxt = rng.choice(near if near and rng.random() < 0.6 else desc)
+        elif others:
+            nxt = rng.choice(others)
+        else:
+            break
+        out.append(nxt)
+        cur = nxt
+    return out
+
+
+def sweep_histories(meta, ard):
+    """Burial thresholds and reorganisations at depth ARD-2 .. ARD for every role placement that the
+    scenario allows: a role confirmed at height h, a sync point at every block, then the block is
+    reorganised away at depth d and a branch without the role is followed past ARD."""
+    out = []
+    avail = [r + 1 for r, ok in enumerate(meta["roles"]) if ok]
+    for r in avail:
+        h1 = max(1, meta["minh"][0])
+        hr = h1 if r == 1 else max(h1, meta["minh"][r - 1], 1)
+        # (a) linear: every block a sync point, until the role is ARD+1 deep
+        n = hr + ard + 1
+        if n <= 12:
+            txs = [[] for _ in range(n)]
+            txs[h1 - 1] = sorted(set(txs[h1 - 1] + [1]))
+            txs[hr - 1] = sorted(set(txs[hr - 1] + [r]))
+            t = Tree(list(range(n)), txs)
+            if tree_valid(t, meta):
+                out.append((t, list(range(1, n + 1))))
+        # (b) reorganised away at depth d, competing branch without the role grows past ARD
+        for d in (ard - 2, ard - 1, ard):
+            la = hr + d - 1                     # role has d confirmations at the tip of A
+            lb = min(12 - la, d + 1)
+            if lb < 1 or la > 11:
+                continue
+            parent = list(range(la)) + [hr - 1] + [la + k for k in range(1, lb)]
+            txs = [[] for _ in parent]
+            txs[h1 - 1] = sorted(set(txs[h1 - 1] + [1]))
+            txs[hr - 1] = sorted(set(txs[hr - 1] + [r]))
+            if r == 1 and False:
+                pass
+            t = Tree(parent, txs)
+            if not tree_valid(t, meta):
+                continue
+            targets = [la - 1, la] + [la + k for k in range(1, lb + 1)] if la > 1 else [la] + [la + k for k in range(1, lb + 1)]
+            out.append((t, targets))
+            # same, but the role re-confirms one block later in the competing branch
+            if lb >= 2:
+                txs2 = [list(x) for x in txs]
+                txs2[la + 1] = sorted(set(txs2[la + 1] + ([r] if r != 1 else [1])))
+                t2 = Tree(parent, txs2)
+                if tree_valid(t2, meta):
+                    out.append((t2, targets))
+    return out
+
+
+def chain_key(scen, tree, tip):
+    return (scen, tuple(tuple(tree.txs[b]) for b in tree.chain(tip)[1:]))
+
+
+def direct_script(scen, tree, tip):
+    ch = tree.chain(tip)[1:]
+    dt = Tree(list(range(len(ch))), [tree.txs[b] for b in ch])
+    return mk_script(scen, dt, [len(ch)], canonical_schedule(dt, [len(ch)], [False]), "direct", 0)
+
+
+# ----------------------------------------------------------------------------- TLC scripts
+
+def convert_tlc(rng, s):
+    """TLC behaviour (ChainViewMC.hist) -> (tree, targets, reloads, schedule)."""
+    tree = Tree(s["parent"], s["txs"])
+    targets, reloads, trans = [], [], []
+    old, pending_reload, cur = 0, False, None
+    for o in s["ops"]:
+        k = o["op"]
+        if k == "restart":
+            pending_reload = True
+        elif k == "plain":
+            targets.append(o["t"])
+            reloads.append(pending_reload)
+            trans.append({"reload": pending_reload, "ops": canonical_ops(tree, old, o["t"])})
+            pending_reload, old = False, o["t"]
+        elif k == "begin":
+            targets.append(o["t"])
+            reloads.append(pending_reload)
+            cur = {"reload": pending_reload, "ops": []}
+            pending_reload = False
+        elif k == "sync":
+            trans.append(cur)
+            old, cur = targets[-1], None
+        elif k == "conn":
+            cur["ops"].append({"op": "conn", "b": o["b"], "mode": rng.choice(LISTEN_MODES)})
+        elif k == "disc":
+            cur["ops"].append({"op": "disc", "to": o["to"]})
+        elif k == "txs":
+            cur["ops"].append({"op": "txs", "b": o["b"], "sel": sorted(o["sel"])})
+        elif k == "best":
+            cur["ops"].append({"op": "best", "b": o["b"]})
+        elif k == "unconf":
+            cur["ops"].append({"op": "unconf", "ord": rng.choice(["asc", "desc"])})
+        if cur is not None and k in ("conn", "disc", "txs", "best", "unconf") and rng.random() < 0.15:
+            cur["ops"].append({"op": "drain"})
+    return tree, targets, reloads, {"order": rng.choice(ORDERS), "trans": trans}
+
+
+# ----------------------------------------------------------------------------- the check
+
+TRACE_MODULE, TRACE_CFG = "ChainViewTrace", "ChainViewTrace.cfg"
+KNOWN_KEY = "PendingClaims_FundingSpendClaimLostOnRewind"
+ENV_OPS = ("conn", "disc", "txs", "best", "unconf", "begin", "reload", "reset")
+MC_ACTIONS = ["MPlain", "MBegin", "MRestart", "MConnect", "MDisconnect", "MTxs", "MUnconfirm", "MBest", "MSync"]
+
+
+def cfg_ard():
+    for ln in open(os.path.join(vlib.SPEC, TRACE_CFG)):
+        if ln.strip().startswith("CONSTANT ARD"):
+            return int(ln.split("=")[1])
+    raise vlib.ToolError("ARD not found in " + TRACE_CFG)
+
+
+class Plan:
+    """Scripts grouped so that every batch is self-contained: the plain delivery of every chain
+    (`direct`) first, then per history the canonical run followed by its other schedules."""
+
+    def __init__(self):
+        self.hists = {}      # key -> dict(scen, tree, targets, reloads, scheds[])
+        self.order = []
+
+    def add(self, scen, tree, targets, reloads, sched, origin):
+        key = (scen, tuple(tree.parent), tuple(tuple(t) for t in tree.txs), tuple(targets), tuple(reloads))
+        h = self.hists.get(key)
+        if h is None:
+            h = {"scen": scen, "tree": tree, "targets": targets, "reloads": reloads, "scheds": [], "origin": origin}
+            self.hists[key] = h
+            self.order.append(key)
+        if sched is not None:
+            h["scheds"].append(sched)
+
+    def batches(self, per_batch):
+        out, cur, n = [], [], 0
+        for key in self.order:
+            h = self.hists[key]
+            cur.append(h)
+            n += 1 + len(h["scheds"])
+            if n >= per_batch:
+                out.append(cur)
+                cur, n = [], 0
+        if cur:
+            out.append(cur)
+        return out
+
+
+def batch_scripts(hists, first_hist_id):
+    scripts, seen = [], set()
+    for h in hists:
+        for t in h["targets"]:
+            k = chain_key(h["scen"], h["tree"], t)
+            if k not in seen and k[1]:
+                seen.add(k)
+                scripts.append(direct_script(h["scen"], h["tree"], t))
+    hid = first_hist_id
+    for h in hists:
+        hid += 1
+        scripts.append(mk_script(h["scen"], h["tree"], h["targets"],
+                                 canonical_schedule(h["tree"], h["targets"], h["reloads"]), "canon", hid))
+        for sc in h["scheds"]:
+            scripts.append(mk_script(h["scen"], h["tree"], h["targets"], sc, "sched", hid))
+    return scripts, hid
+
+
+def diff_conclusions(run_events, canon_events, idx):
+    """Human-readable difference between a run's and its canonical run's sync record (replay file)."""
+    a = [e for e in canon_events if e["ev"] == "sync" and e["idx"] == idx]
+    b = [e for e in run_events if e["ev"] == "sync" and e["idx"] == idx]
+    if not a or not b:
+        return {}
+    out = {}
+    for part in ("R", "S"):
+        for k in a[0][part]:
+            if a[0][part][k] != b[0][part][k]:
+                out["%s.%s" % (part, k)] = {"canonical": a[0][part][k], "this_schedule": b[0][part][k]}
+    return out
+
+
+def selftest(wd, trace_path, env):
+    """Binding self-test: corrupt an accepted trace; every corruption must be refused."""
+    recs = [json.loads(x) for x in open(trace_path)]
+    # keep the direct runs + the first history that has a buried role, an irreversible event and a
+    # schedule other than the canonical one
+    by_run = {}
+    for r in recs:
+        by_run.setdefault(r["run"], []).append(r)
+    keep = [r for r in recs if by_run[r["run"]][0]["kind"] == "direct"]
+    pick = None
+    for run, evs in by_run.items():
+        if evs[0]["kind"] != "canon":
+            continue
+        syncs = [e for e in evs if e["ev"] == "sync"]
+        if any(s["f"]["irrev"] for s in syncs) and any(s["f"]["mrel"] for s in syncs) and len(syncs) >= 2:
+            others = [x for x in by_run if by_run[x][0]["kind"] == "sched" and by_run[x][0]["hist"] == evs[0]["hist"]]
+            if others:
+                pick = (run, others[0])
+                break
+    if pick is None:
+        raise vlib.ToolError("binding self-test: no suitable history in the accepted trace")
+    base = keep + by_run[pick[0]] + by_run[pick[1]]
+    muts = []
+
+    def clone():
+        return [json.loads(json.dumps(r)) for r in base]
+
+    def sync_idx(m, run, pred):
+        for k, r in enumerate(m):
+            if r["run"] == run and r["ev"] == "sync" and pred(r):
+                return k
+        return None
+    # (a) an irreversible event reported one sync point too early (before its trigger is buried)
+    m = clone()
+    k = sync_idx(m, pick[0], lambda r: r["f"]["irrev"])
+    if k is not None:
+        prev = max(j for j in range(k) if m[j]["ev"] == "sync" and m[j]["run"] == pick[0]) if any(
+            m[j]["ev"] == "sync" and m[j]["run"] == pick[0] for j in range(k)) else None
+        if prev is not None:
+            m[prev]["f"]["irrev"] = m[k]["f"]["irrev"]
+            muts.append(("irreversible-too-early", m))
+    # (b) a relevant txid dropped while not yet buried
+    m = clone()
+    k = sync_idx(m, pick[0], lambda r: r["f"]["mrel"])
+    if k is not None:
+        m[k]["f"]["mrel"] = []
+        muts.append(("unburied-forgotten", m))
+    # (c) best block off by one block
+    m = clone()
+    k = sync_idx(m, pick[0], lambda r: True)
+    m[k]["f"]["mbest"] = m[k]["f"]["mbest"] + 1
+    muts.append(("best-block-wrong", m))
+    # (d) a balance differs in the non-canonical schedule
+    m = clone()
+    k = sync_idx(m, pick[1], lambda r: r["R"]["bal"])
+    if k is not None:
+        m[k]["R"]["bal"] = m[k]["R"]["bal"][1:]
+        muts.append(("balance-differs", m))
+    # (e) a notification dropped from the schedule (an illegal / incomplete delivery must be refused)
+    m = clone()
+    for k, r in enumerate(m):
+        if r["run"] == pick[1] and r["ev"] in ("conn", "txs", "best") and r["who"] == "mon":
+            muts.append(("notification-dropped", m[:k] + m[k + 1:]))
+            break
+    # (f) an extra event in the non-canonical schedule
+    m = clone()
+    k = sync_idx(m, pick[1], lambda r: True)
+    m[k]["S"]["evs"] = m[k]["S"]["evs"] + ["SpendableOutputs:static:t1:0"]
+    muts.append(("event-duplicated", m))
+    rejected, names = 0, []
+    for name, m in muts:
+        p = os.path.join(wd, "selftest-%s.ndjson" % name)
+        with open(p, "w") as f:
+            for r in m:
+                f.write(json.dumps(r) + "\n")
+        _, fails = vlib.validate_trace(PID, TRACE_MODULE, TRACE_CFG, p, max_failures=1, tag="st", env=env)
+        names.append(name)
+        if fails:
+            rejected += 1
+    if len(muts) < 5 or rejected != len(muts):
+        raise vlib.ToolError("binding self-test: %d of %d corrupted traces rejected (%s)" % (rejected, len(muts), names))
+    return {"mutations": len(muts), "rejected": rejected, "kinds": names}
+
+
+def run(tier, seed):
+    t0 = time.time()
+    wd = vlib.workdir(PID)
+    thorough = tier == "thorough"
+    bins = vlib.build(["chainsync"])
+    rng = random.Random(seed)
+
+    # ---- 0. the starting states the engine offers, and the constant of the code
+    dpath = os.path.join(wd, "describe.json")
+    vlib.run_bin(bins["chainsync"], ["--describe", "--out", dpath], discard_stdout=True)
+    desc = json.load(open(dpath))
+    ard = desc["ard"]
+    if ard != cfg_ard():
+        raise vlib.ToolError("ANTI_REORG_DELAY of the code (%d) differs from the specs' ARD" % ard)
+    metas = {m["name"]: m for m in desc["scenarios"]}
+
+    # ---- 1. environment check + behaviours from TLC
+    mcs, tlc_scripts = [], []
+    cfgs = ["ChainViewMC.cfg"] if not thorough else ["ChainViewMC.cfg", "ChainViewMCt1.cfg", "ChainViewMCt2.cfg"]
+    for cfg in cfgs:
+        r = vlib.tlc_mc(PID, "ChainViewMC", cfg, workers=12, timeout=3000 if thorough else 600)
+        if r["violated"]:
+            raise vlib.ToolError("environment model violates %s in %s (spec needs correction)" % (r["violated"], cfg))
+        vlib.require_coverage(r, MC_ACTIONS, cfg)
+        got = vlib.tlc_printed(r["out"], "SCRIPT")
+        vlib.log("[mc] %s: %d distinct states, %d generated, depth %d, %d scripts, %.0fs" %
+                 (cfg, r["distinct"], r["states"], r["depth"], len(got), r["wall_s"]))
+        tlc_scripts += got
+        r.pop("out")
+        mcs.append((cfg, r))
+    cap = 12000 if thorough else 1800
+    if len(tlc_scripts) > cap:
+        tlc_scripts = rng.sample(tlc_scripts, cap)
+
+    plan = Plan()
+    n_tlc = 0
+    names = sorted(metas)
+    for k, s in enumerate(tlc_scripts):
+        tree, targets, reloads, sched = convert_tlc(rng, s)
+        ok = [n for n in names if tree_valid(tree, metas[n])]
+        if not ok:
+            continue
+        scen = ok[k % len(ok)]
+        plan.add(scen, tree, targets, reloads, sched, "tlc")
+        n_tlc += 1
+    if tlc_scripts and n_tlc * 2 < len(tlc_scripts):
+        raise vlib.ToolError("most TLC behaviours fit no starting state (%d of %d)" % (n_tlc, len(tlc_scripts)))
+
+    # ---- 2. larger histories: threshold sweeps + seeded random trees, several schedules each
+    n_sweep = n_rand = 0
+    per_hist = 6 if thorough else 3
+    for n in names:
+        for tree, targets in sweep_histories(metas[n], ard):
+            reloads = [False] + [rng.random() < 0.15 for _ in targets[1:]]
+            plan.add(n, tree, targets, reloads, None, "sweep")
+            for _ in range(per_hist):
+                plan.add(n, tree, targets, reloads, random_schedule(rng, tree, targets, reloads), "sweep")
+                n_sweep += 1
+    nrand = 1500 if thorough else 150
+    for k in range(nrand):
+        n = names[k % len(names)]
+        tree, tips = random_tree(rng, metas[n], ard)
+        targets = random_targets(rng, tree, tips, ard)
+        if not targets or not tree_valid(tree, metas[n]):
+            continue
+        reloads = [False] + [rng.random() < 0.25 for _ in targets[1:]]
+        plan.add(n, tree, targets, reloads, None, "random")
+        for _ in range(per_hist):
+            plan.add(n, tree, targets, reloads, random_schedule(rng, tree, targets, reloads), "random")
+            n_rand += 1
+
+    # ---- 3. real code, batch by batch; 4. trace validation (the oracle)
+    known = any(k.get("property") == PID and k.get("key") == KNOWN_KEY for k in vlib.load_known())
+    env = {"C11_WAIVE": "1"} if known else {}
+    nviol = total_events = total_runs = total_syncs = total_calls = panics = waived = 0
+    first_ok_trace, sample_scripts = None, []
+    hid = 0
+    batches = plan.batches(900 if thorough else 700)
+    for bi, hists in enumerate(batches):
+        scripts, hid = batch_scripts(hists, hid)
+        spath = os.path.join(wd, "scripts-%d.ndjson" % bi)
+        tpath = os.path.join(wd, "trace-%d.ndjson" % bi)
+        with open(spath, "w") as f:
+            for s in scripts:
+                f.write(json.dumps(s) + "\n")
+        if not sample_scripts:
+            sample_scripts = [x for x in scripts if x["kind"] == "sched"][:2]
+        vlib.run_bin(bins["chainsync"], ["--scripts", spath, "--out", tpath], discard_stdout=True, timeout=3000)
+        summ = json.load(open(tpath + ".summary"))
+        if summ["setup_failures"]:
+            raise vlib.ToolError("chainsync could not prepare a starting state (%d failures)" % summ["setup_failures"])
+        total_runs += summ["runs"]
+        total_syncs += summ["syncs"]
+        total_calls += summ["calls"]
+        panics += summ["panics"]
+        total, fails = vlib.validate_trace(PID, TRACE_MODULE, TRACE_CFG, tpath, timeout=2400, env=env,
+                                           tag="b%d" % bi, max_failures=8)
+        total_events += total
+        out = open(os.path.join(wd, "tlc-trace-b%d1.out" % bi)).read() if known else ""
+        waived += out.count('<<"WAIVED"')
+        if first_ok_trace is None and not fails:
+            first_ok_trace = tpath
+        by_run = None
+        for fl in fails:
+            ev = fl["rec"]
+            script = scripts[fl["run"] - 1]
+            if fl["kind"] == "rejected" and ev.get("ev") in ENV_OPS + ("sync",) and ev.get("ev") != "sync":
+                raise vlib.ToolError("script %d of batch %d is not permitted by the contract at %s (generator bug): %s"
+                                     % (fl["run"], bi, ev, json.dumps(script)[:600]))
+            if fl["kind"] == "rejected" and ev.get("ev") == "sync":
+                raise vlib.ToolError("script %d of batch %d reaches a sync point without having delivered the chain: %s"
+                                     % (fl["run"], bi, json.dumps(script)[:600]))
+            if fl["inv"] == "HistoryWellFormed":
+                raise vlib.ToolError("ill-formed history in batch %d run %d" % (bi, fl["run"]))
+            if by_run is None:
+                by_run = {}
+                for ln in open(tpath):
+                    r = json.loads(ln)
+                    by_run.setdefault(r["run"], []).append(r)
+            canon_run = fl["run"]
+            while canon_run > 1 and scripts[canon_run - 1]["kind"] == "sched":
+                canon_run -= 1
+            diff = diff_conclusions(fl["run_events"], by_run.get(canon_run, []), ev.get("idx", 0)) if ev.get("ev") == "sync" else {}
+            key = None
+            if fl["inv"] == "PendingClaimsDeliveryIndependent" and not known:
+                # attribute to the recorded class only if the sole difference is the claim on the funding output
+                fidx = 1 if metas[script["scen"]]["funding_role"] else 5
+                d = diff.get("R.claims")
+                if d:
+                    a = [g for g in d["canonical"] if [fidx, 0] not in g]
+                    b = [g for g in d["this_schedule"] if [fidx, 0] not in g]
+                    if a == b:
+                        key = KNOWN_KEY
+            name = "b%d-run%d" % (bi, fl["run"])
+            what = "panic" if ev.get("ev") == "panic" else (fl["inv"] or "unmatched event")
+            vlib.log("[reject] batch %d run %d (%s, %s) at %s: %s" % (bi, fl["run"], script["scen"], script["kind"], ev.get("ev"), what))
+            if vlib.report_violation(PID, name, {
+                    "property": PID, "kind": fl["kind"], "invariant": fl["inv"], "first_unmatched_event": ev,
+                    "position_in_run": fl["pos_in_run"], "difference_from_canonical_delivery": diff,
+                    "script": script, "canonical_script": scripts[canon_run - 1],
+                    "trace_of_run": fl["run_events"], "last_state": fl["last_state"],
+                    "how_to_replay": "write `canonical_script` and `script` (one JSON per line) to s.ndjson; "
+                                     "harness/target/debug/chainsync --scripts s.ndjson --out t.ndjson; "
+                                     "tools/tv.sh ChainViewTrace t.ndjson"}, key=key):
+                nviol += 1
+    if known and waived:
+        vlib.log("KNOWN-FINDING: property=%s %s (%d synchronisation points waived)" % (PID, KNOWN_KEY, waived))
+    if total_runs == 0 or total_syncs == 0:
+        raise vlib.ToolError("nothing was executed")
+
+    st = None
+    if nviol == 0:
+        if first_ok_trace is None:
+            raise vlib.ToolError("no accepted batch to run the binding self-test on")
+        st = selftest(wd, first_ok_trace, env)
+        vlib.log("[selftest] %s" % st)
+
+    nsched = sum(len(h["scheds"]) for h in plan.hists.values())
+    samples = sample_scripts[:2]
+    if first_ok_trace:
+        with open(first_ok_trace) as f:
+            samples.append({"trace_head": [json.loads(next(f)) for _ in range(6)]})
+    cov = {
+        "states": sum(r["distinct"] for _, r in mcs), "transitions": sum(r["states"] for _, r in mcs),
+        "traces_validated_against_impl": total_runs, "samples": samples,
+        "mc_runs": [{"cfg": c, "distinct": r["distinct"], "generated": r["states"], "depth": r["depth"],
+                     "action_coverage": r["coverage"], "wall_s": round(r["wall_s"], 1)} for c, r in mcs],
+        "histories": len(plan.hists), "schedules_other_than_canonical": nsched,
+        "schedules_from_tlc": n_tlc, "schedules_threshold_sweep": n_sweep, "schedules_random": n_rand,
+        "starting_states": names, "sync_points_judged": total_syncs, "notification_calls": total_calls,
+        "events_validated": total_events, "impl_panics": panics, "anti_reorg_delay": ard,
+        "known_finding_waived_sync_points": waived, "binding_selftest": st, "exhaustive": False,
+    }
+    vlib.write_evidence(PID, tier, seed, "model_checking", cov, [
+        "a reorganisation deeper than ANTI_REORG_DELAY for a transaction that was already final is outside the "
+        "property (the run is only required not to panic and to keep the best block right)",
+        "Confirm clients un-confirm stale transactions before announcing a tip of the new branch at or above "
+        "their height (as lightning-transaction-sync does); best_block_updated always names a header of the best chain",
+        "the interface (Listen / Confirm) changes only across a restart; restarts happen at synchronisation points "
+        "and are part of the history (the canonical run restarts at the same points)",
+        "claims are compared by the outpoints they spend, restricted to outputs that can still be claimed on the best chain",
+        "2 nodes, static_remote_key channels (no anchors): fail-backs are observed as PaymentPathFailed / PaymentFailed",
+    ], time.time() - t0, nviol)
+    return nviol
